@@ -18,7 +18,7 @@ import corechecks
 THEOREMS = ['C03_aligned', 'C03_rows', 'C03_once', 'C03_append']
 MODULE = [('NautilusVerif.Properties.C03', None),
           ('NautilusVerif.Properties.C03Eval', ['C03_eval_modes', 'C11_eval_mode_independent', 'C03_split_aligned', 'C03_nocopy_alters_rows']),
-          ('NautilusVerif.Properties.CoreTie', ['Core_tie_evaluateLikelihood', 'Core_tie_addBound', 'Core_tie_addSamples', 'Core_tie_posterior', 'Core_tie_poolMap'])]
+          *common.core_tie(['evaluateLikelihood', 'addBound', 'addSamples', 'posterior', 'poolMap'])]
 FILES = ['nautilus/sampler.py']
 INVARIANTS = ['aligned', 'nodup']
 
